@@ -8,6 +8,15 @@ HUB_NOTE = ("trusted: Coq kernel + vm_compute; the granularity of Model/Hub.v (c
             "in its header); bbolt by contract; Go drivers. The tie to the code is sequential handler-level histories (agreement with the model and with the "
             "abstract sequential spec); interleavings are covered by the theorems, and by steered schedules where a stage says so.")
 META = {
+    "C18": {
+        "text": "Coq theorems: (hub LTS, every schedule) while open the transport lists each subscriber at most once and exactly those between indexing and removal - at "
+                "quiescence the open streams; (API model) per-topic collection = filtered collection, a pair is found iff listed, every listed id routes back through "
+                "the escaped URL to itself (QueryEscape round-trip over all byte strings), 304 iff If-None-Match = last event id, and with subscriber keys only callers "
+                "whose verified subscribe selectors match the URL are answered. Tied to the code by API probes over adversarial selectors on both transports and by "
+                "the number of listed subscribers after every operation of the hub histories.",
+        "design_ref": "DESIGN.md §5 C18", "note": HUB_NOTE,
+        "technique": "Coq proof (hub LTS invariant; list/codec lemmas; decision-function case analysis) + differential correspondence of API probes evaluated in Coq",
+    },
     "C16": {
         "text": "Coq theorems over a timed automaton of the subscribe handler (Z nanoseconds; every configuration, expiry and arrival times): the write deadline is "
                 "min(write timeout, token expiry) with absent terms dropped and the disconnection timer is armed iff a write timeout exists, one dispatch timeout earlier; "
